@@ -38,6 +38,9 @@ class LxmlEventHandler(XmlHandler):
                 base_url=self.parser.config.base_url,
             )
             tree.xinclude()
+            # The included documents are parsed with the libxml2 defaults,
+            # drop their comments and processing instructions as well
+            etree.strip_tags(tree, etree.Comment, etree.ProcessingInstruction)
             ctx = etree.iterwalk(tree, EVENTS)
         else:
             ctx = etree.iterparse(
